@@ -246,7 +246,8 @@ pub fn check_bsd(c: &BsdCase, rec: &mut Rec) -> Result<(), Violation> {
   rec.class(&format!("k{}", c.k / 5 * 5));
   rec.nontrivial(fp_of(&(c.k, c.rel.to_bits(), lon.to_bits(), lat.to_bits())));
   rec.sample(|| json!({"k": c.k, "rel": c.rel, "pos": c.pos, "n_azimuths": c.az.len()}));
-  let f = |v: Violation| super::c01::facts(v, c.k, lon, lat).fact("radius", r).fact("rel", c.rel);
+  // the known finding D17 is keyed on the radius relative to the limit recomputed by the model
+  let f = |v: Violation| super::c01::facts(v, c.k, lon, lat).fact("radius", r).fact("rel", super::cone_common::rel_to_model_limit(r)).fact("rel_to_table", c.rel);
   if r >= threshold_by_bisection(0) {
     return Ok(());
   }
